@@ -11,13 +11,14 @@ import (
 // value at function entry" (key@0), declared lazily.
 type State struct {
 	heap   map[string]string
-	suffix string // name suffix of lazily declared versions ("@0" = function entry)
+	suffix string   // name suffix of lazily declared versions ("@0" = function entry)
+	wild   []string // key prefixes havocked wholesale: a first touch yields a fresh value, not the entry value
 }
 
 func newState() *State { return &State{heap: map[string]string{}} }
 
 func (s *State) clone() *State {
-	n := &State{heap: make(map[string]string, len(s.heap)), suffix: s.suffix}
+	n := &State{heap: make(map[string]string, len(s.heap)), suffix: s.suffix, wild: append([]string{}, s.wild...)}
 	for k, v := range s.heap {
 		n.heap[k] = v
 	}
@@ -39,6 +40,16 @@ func (ex *Exec) get(st *State, key string, srt Sort) string {
 	}
 	if t, ok := st.heap[key]; ok {
 		return t
+	}
+	for _, w := range st.wild {
+		if strings.HasPrefix(key, w) {
+			n := ex.sc.Fresh(key+"$w", srt)
+			st.heap[key] = n
+			if key != allocKey {
+				ex.refAxiom(key, n, srt, ex.get(st, allocKey, SInt))
+			}
+			return n
+		}
 	}
 	name := ex.entryName(key)
 	allocName := ex.entryName(allocKey)
@@ -147,6 +158,16 @@ func (ex *Exec) mergeStates(conds []string, sts []*State) *State {
 	}
 	sort.Strings(ks)
 	out := newState()
+	seenW := map[string]bool{}
+	for _, s := range sts {
+		for _, w := range s.wild {
+			if !seenW[w] {
+				seenW[w] = true
+				out.wild = append(out.wild, w)
+			}
+		}
+	}
+	out.suffix = sts[0].suffix
 	for _, k := range ks {
 		srt := ex.hsort[k]
 		terms := make([]string, len(sts))
